@@ -42,7 +42,10 @@ Section Class.
     | LMember e _ => if cty_eqb (CAdt e) ty || is_int_cty ty then None else Some PCPathConvert
     | LConst c =>
         match ident_ty_of_const S c with
-        | Some it => if cty_eqb it ty || (is_str_cty it && is_faststr_cty ty) then None else Some PCPathConvert
+        | Some it =>
+            if cty_eqb it ty || (is_str_cty it && is_faststr_cty ty)
+               || (match ckind S it with Some CPAdtEnum => is_int_cty ty | _ => false end)
+            then None else Some PCPathConvert
         | None => Some PCDangling
         end
     | _ =>
